@@ -49,14 +49,14 @@ fn path_lines(s: &[u8], out: &mut Out) {
     }
 }
 
-fn addentry_line(p: &[u8], e: &[u8], out: &mut Out) {
+pub fn addentry_line(p: &[u8], e: &[u8], out: &mut Out) {
     let (Ok(mut path), Ok(entry)) = (Path::new(p), Path::new(e)) else { return };
     let r = guarded(|| path.add_path_entry(&entry));
     let rs = match r { None => "P", Some(Ok(())) => "u", Some(Err(e)) => err_str(e) };
     out.line(&format!("O addentry {} {} = {}/{}", hex(p), hex(e), rs, hex(path.as_bytes())));
 }
 
-fn frompf_line(p: &[u8], f: &[u8], out: &mut Out) {
+pub fn frompf_line(p: &[u8], f: &[u8], out: &mut Out) {
     let (Ok(path), Ok(file)) = (Path::new(p), FileName::new(f)) else { return };
     let rs = match guarded(|| FilePath::from_path_and_file(&path, &file)) {
         None => "P".to_string(), Some(Ok(v)) => format!("ok:{}", hex(v.as_bytes())), Some(Err(e)) => err_str(e).to_string() };
@@ -75,7 +75,7 @@ fn pathfor(prefix: &[u8], suffix: &[u8], hint: &[u8], name: &[u8], out: &mut Out
     out.line(&format!("O pathfor {} {} {} {} = {}", hex(prefix), hex(suffix), hex(hint), hex(name), match &r { Some(v) => hex(v.as_bytes()), None => "P".into() }));
     r
 }
-fn extractf(prefix: &[u8], suffix: &[u8], hint: &[u8], file: &[u8], out: &mut Out) {
+pub fn extractf(prefix: &[u8], suffix: &[u8], hint: &[u8], file: &[u8], out: &mut Out) {
     let Some(cfg) = mk_cfg(prefix, suffix, hint) else { return };
     let Ok(f) = FileName::new(file) else { return };
     let r = guarded(|| cfg.extract_name_from_file(&f));
